@@ -28,7 +28,8 @@ META = {
         ' Also: the stand-alone through_regex is case-closed w.r.t. the regexes that embed it; every Twp/Rge twprge_regex can capture is a valid TRS; layout if/elif chains without else are exhaustive; helpers that are handed the layout are included in the dispatch table check.'
         " Round 7: cleanup_desc word tests act on lower-cased text and never remove a word from the front; possessive quantifiers are modelled exactly for single-character bodies (compact 't154nr97w' is part of the spelling family)."
         " Round 8: deduce_layout's section search finds every spelling (incl. '§'); reduce_whitespace rewrites whitespace only."
-        ' Round 9: deduce_layout searches the whole text; no de-duplication / re-ordering idiom on the parse path.'),
+        ' Round 9: deduce_layout searches the whole text; no de-duplication / re-ordering idiom on the parse path.'
+        " Round 10: sub_scrubber rewrites each Twp/Rge where it stands ('5N-9W ... 15N-9W')."),
     'families': ['TBL', 'RX-LANG', 'ORDER'],
 }
 
@@ -69,6 +70,8 @@ def check(ctx):
     ctx.attempt(_marker_walk)
     ctx.attempt(common.embedded_case_consistency, modules=('rgxlib.misc', 'rgxlib.sec', 'rgxlib.twprge'))
     ctx.attempt(common.match_record_roles)
+    from .c08 import _by_position       # 'T5N-R9W ... T15N-R9W': the short Twp/Rge is rewritten where it stands only
+    ctx.attempt(_by_position)
 
 
 def _pretty(ctx, tw, ms):
